@@ -579,3 +579,24 @@ def _density(spec, ctx, summary, classes):
         slack = 1.0 + len(rg.leaves(geo._strip_boundary(E)))
         if abs(mean - target) > 6 * sigma + slack:
             ctx.violation("density-expectation", feat, f"mean row count {mean:.2f} over {R} calls, density*measure = {target:.2f}")
+
+
+def extra_cases(tier, seed):
+    """pinned: parameter-dependent shapes whose measure differs between the rows of ONE call (tilting /
+    stretching parallelogram and triangle, growing disc / ball / interval), alone, as boundary and in a product."""
+    C = specs.const
+    aff = lambda v0, V1: {"k": "affine", "var": "p", "v0": v0, "V1": [[v] for v in V1]}      # noqa: E731
+    tilt = {"t": "par", "var": "x", "o": C([0.5, -1.0]), "c1": aff([2.5, -1.0], [0.5, 1.5]), "c2": aff([1.2, 0.5], [-0.4, 0.8])}
+    tri = {"t": "tri", "var": "x", "o": C([0.0, 0.0]), "c1": aff([2.0, 0.0], [0.5, 1.0]), "c2": aff([0.7, 1.5], [0.6, 0.5])}
+    disc = {"t": "circle", "var": "x", "c": aff([0.0, 1.0], [2.0, -1.0]), "r": aff([0.5], [1.5])}
+    ball = {"t": "sphere", "var": "y", "c": C([0.0, 1.0, -1.0]), "r": aff([0.4], [1.1])}
+    itv = {"t": "interval", "var": "u", "lo": aff([-1.0], [0.5]), "hi": aff([1.0], [2.5])}
+    T = {"t": "interval", "var": "t", "lo": C([0.0]), "hi": C([2.0])}
+    out = []
+    rows = {"p": [[0.0], [1.0], [0.35]]}
+    for j, L in enumerate((tilt, tri, disc, ball, itv)):
+        out.append({"kind": "leaf", "rng": seed + j, "E": L, "prows": rows})
+        out.append({"kind": "bleaf", "rng": seed + j, "E": {"t": "boundary", "a": L}, "prows": rows})
+        if L["t"] != "sphere":
+            out.append({"kind": "product", "rng": seed + j, "E": {"t": "product", "a": L, "b": T}, "prows": rows})
+    return out
